@@ -455,7 +455,7 @@ func TestC18Analyzers(t *testing.T) {
 	vlib.Check(t, 9000, 40000, func(rt *rapid.T) {
 		name := rapid.SampledFrom(names).Draw(rt, "analyzer")
 		tx := genText(rt)
-		c := mkCase(Spec{Kind: "analyzer", Analyzer: name}, tx.Bytes, true, rapid.Bool().Draw(rt, "store"))
+		c := mkCase(Spec{Kind: "analyzer", Analyzer: name}, tx.Bytes, rapid.IntRange(0, 2).Draw(rt, "rt") == 0, rapid.Bool().Draw(rt, "store"))
 		f, st := evaluate(c)
 		record("analyzers", c, &tx, f, st, "an:"+name)
 		vlib.Report(rt, ev, "case", c, f)
@@ -467,7 +467,7 @@ func TestC18Tokenizers(t *testing.T) {
 	vlib.Check(t, 3000, 15000, func(rt *rapid.T) {
 		tx := genText(rt)
 		tk := genTokenizer(rt)
-		c := mkCase(Spec{Kind: "tokenizer", Tokenizer: &tk}, tx.Bytes, rapid.IntRange(0, 3).Draw(rt, "rt") == 0, rapid.Bool().Draw(rt, "store"))
+		c := mkCase(Spec{Kind: "tokenizer", Tokenizer: &tk}, tx.Bytes, rapid.IntRange(0, 5).Draw(rt, "rt") == 0, rapid.Bool().Draw(rt, "store"))
 		f, st := evaluate(c)
 		record("tokenizers", c, &tx, f, st, "tok:"+tk.Name)
 		vlib.Report(rt, ev, "case", c, f)
@@ -490,7 +490,7 @@ func TestC18CharFilters(t *testing.T) {
 			cfs = append(cfs, cf)
 			subs = append(subs, "cf:"+cf.Name)
 		}
-		c := mkCase(Spec{Kind: "charfilter", Tokenizer: &tk, Char: cfs}, tx.Bytes, rapid.IntRange(0, 3).Draw(rt, "rt") == 0, rapid.Bool().Draw(rt, "store"))
+		c := mkCase(Spec{Kind: "charfilter", Tokenizer: &tk, Char: cfs}, tx.Bytes, rapid.IntRange(0, 5).Draw(rt, "rt") == 0, rapid.Bool().Draw(rt, "store"))
 		f, st := evaluate(c)
 		record("charfilters", c, &tx, f, st, subs...)
 		vlib.Report(rt, ev, "case", c, f)
@@ -522,7 +522,7 @@ func TestC18Filters(t *testing.T) {
 			s.Pre = &p
 			subs = append(subs, "pre:"+p.Name)
 		}
-		c := mkCase(s, tx.Bytes, rapid.IntRange(0, 3).Draw(rt, "rt") == 0, rapid.Bool().Draw(rt, "store"))
+		c := mkCase(s, tx.Bytes, rapid.IntRange(0, 5).Draw(rt, "rt") == 0, rapid.Bool().Draw(rt, "store"))
 		f, st := evaluate(c)
 		record("filters", c, &tx, f, st, subs...)
 		vlib.Report(rt, ev, "case", c, f)
@@ -547,7 +547,7 @@ func TestC18Pipelines(t *testing.T) {
 			s.Filters = append(s.Filters, fl)
 			subs = append(subs, "pipe-flt:"+fl.Name)
 		}
-		c := mkCase(s, tx.Bytes, rapid.IntRange(0, 3).Draw(rt, "rt") == 0, rapid.Bool().Draw(rt, "store"))
+		c := mkCase(s, tx.Bytes, rapid.IntRange(0, 5).Draw(rt, "rt") == 0, rapid.Bool().Draw(rt, "store"))
 		f, st := evaluate(c)
 		record("pipelines", c, &tx, f, st, subs...)
 		vlib.Report(rt, ev, "case", c, f)
